@@ -27,7 +27,7 @@ TInit == Init /\ l = 1 /\ saved = <<>>
 TReset == /\ Is("reset") /\ Keep
           /\ st' = "down" /\ lock' = FALSE /\ T' = {} /\ mq' = <<>> /\ segs' = <<>>
           /\ sobj' = [i \in 1..MaxSeg |-> NoObj] /\ disk' = [i \in 1..MaxSeg |-> NoFiles]
-          /\ ctr' = 0 /\ fl' = IdleFl /\ co' = IdleCo /\ se' = IdleSe /\ flushReq' = FALSE /\ compactReq' = FALSE
+          /\ ctr' = 0 /\ fl' = IdleFls /\ co' = IdleCo /\ se' = IdleSe /\ flushReq' = FALSE /\ compactReq' = FALSE
           /\ expect' = {} /\ durable' = {} /\ ever' = {} /\ lost' = {} /\ crashes' = 0 /\ removed' = {} /\ leaked' = {}
 
 \* open: the segments listed and the counter the real store starts with are the specification's
@@ -38,23 +38,23 @@ TRemove == /\ Is("remove") /\ Keep
            /\ IF CanRemove(Ev.id) THEN Ev.ok /\ Remove(Ev.id) ELSE ~Ev.ok /\ Stutter
 TEvict == Is("evict") /\ Keep /\ EvictAll
 
-\* ---- flusher (foreground Flush(), background worker, closing flush)
+\* ---- flushers: every flush.* event names its worker (Ev.w = "fg": the caller of Flush(); "bg": the background goroutine, which also runs the closing flush)
 TFlushCall == Is("flush.call") /\ Keep /\ Stutter
 TPicked == /\ Is("flush.picked") /\ Keep
-           /\ IF st = "closing" THEN Stutter /\ Len(fl.q) = Ev.n
-              ELSE FlushStart(Ev.who) /\ Len(fl'.q) = Ev.n
-TFlushId       == Is("flush.id") /\ Keep /\ FlushNextId /\ fl'.sid = Ev.sid
-TFlushCreate   == Is("flush.create") /\ Keep /\ fl.pc = "create" /\ CreateOrder[fl.k] = Ev.c /\ fl.sid = Ev.sid /\ FlushCreate
-TFlushWritten  == Is("flush.written") /\ Keep /\ fl.sid = Ev.sid /\ FlushWrite
-TFlushClose    == Is("flush.close") /\ Keep /\ fl.pc \in {"written", "close"} /\ CloseOrder[fl.k] = Ev.c /\ fl.sid = Ev.sid /\ FlushClose
-TFlushReg      == Is("flush.registered") /\ Keep /\ fl.sid = Ev.sid /\ FlushRegister
-TFlushDropped  == Is("flush.dropped") /\ Keep /\ FlushDrop
-TFlushRet      == Is("flush.ret") /\ Keep /\ Ev.ok /\ fl.who = "fg" /\ FlushFinish
+           /\ IF st = "closing" THEN Stutter /\ Len(fl["bg"].q) = Ev.n
+              ELSE FlushStart(Ev.w) /\ Len(fl'[Ev.w].q) = Ev.n
+TFlushId       == Is("flush.id") /\ Keep /\ FlushNextId(Ev.w) /\ fl'[Ev.w].sid = Ev.sid
+TFlushCreate   == Is("flush.create") /\ Keep /\ fl[Ev.w].pc = "create" /\ CreateOrder[fl[Ev.w].k] = Ev.c /\ fl[Ev.w].sid = Ev.sid /\ FlushCreate(Ev.w)
+TFlushWritten  == Is("flush.written") /\ Keep /\ fl[Ev.w].sid = Ev.sid /\ FlushWrite(Ev.w)
+TFlushClose    == Is("flush.close") /\ Keep /\ fl[Ev.w].pc \in {"written", "close"} /\ CloseOrder[fl[Ev.w].k] = Ev.c /\ fl[Ev.w].sid = Ev.sid /\ FlushClose(Ev.w)
+TFlushReg      == Is("flush.registered") /\ Keep /\ fl[Ev.w].sid = Ev.sid /\ FlushRegister(Ev.w)
+TFlushDropped  == Is("flush.dropped") /\ Keep /\ FlushDrop(Ev.w)
+TFlushRet      == Is("flush.ret") /\ Keep /\ Ev.ok /\ fl["fg"].who = "fg" /\ FlushFinish("fg")
 TReqBg         == Is("reqbg") /\ Keep /\ IF Ev.ok THEN RequestBgFlush \/ (flushReq' = TRUE /\ ~flushReq /\ UNCHANGED <<removed, leaked, sobj, st, lock, T, mq, segs, disk, ctr, fl, co, se, compactReq, expect, durable, ever, lost, crashes>>) ELSE flushReq /\ Stutter
 TBgBegin       == Is("bg.flush.begin") /\ Keep /\ Stutter
-TBgEnd         == Is("bg.flush.end") /\ Keep /\ fl.who = "bg" /\ FlushFinish
+TBgEnd         == Is("bg.flush.end") /\ Keep /\ fl["bg"].who = "bg" /\ FlushFinish("bg")
 TCloseCall     == Is("close.call") /\ Keep /\ Close
-TCloseRet      == Is("close.ret") /\ Keep /\ Ev.ok /\ st = "closing" /\ FlushFinish /\ st' = "down"
+TCloseRet      == Is("close.ret") /\ Keep /\ Ev.ok /\ st = "closing" /\ FlushFinish("bg") /\ st' = "down"
 
 \* ---- search
 TSearchStart == Is("search.start") /\ Keep /\ SearchStart /\ Cardinality(se'.todo) = Ev.nseg /\ Len(mq) = Ev.nmem
@@ -102,7 +102,7 @@ TImageBegin == /\ Is("image.begin") /\ saved = <<>>
                /\ saved' = <<Tuple, Ev.damage>>
                /\ st \in {"open", "closing"}
                /\ st' = "down" /\ lock' = FALSE /\ crashes' = crashes
-               /\ T' = {} /\ mq' = <<>> /\ segs' = <<>> /\ sobj' = [i \in 1..MaxSeg |-> NoObj] /\ fl' = IdleFl /\ co' = IdleCo /\ se' = IdleSe
+               /\ T' = {} /\ mq' = <<>> /\ segs' = <<>> /\ sobj' = [i \in 1..MaxSeg |-> NoObj] /\ fl' = IdleFls /\ co' = IdleCo /\ se' = IdleSe
                /\ flushReq' = FALSE /\ compactReq' = FALSE /\ ctr' = 0
                /\ expect' = durable
                /\ disk' = LET d0 == [i \in 1..MaxSeg |-> [c \in AllComps |-> IF disk[i][c].st = "empty" THEN (IF Ev.part THEN Partial ELSE Empty) ELSE disk[i][c]]]
